@@ -2,8 +2,11 @@
 use super::*;
 use crate::verif_contracts::{clause, vcover};
 
+/// `core::hint::spin_loop` (x86 `pause`) has no effect on program state: assumed no-op.
+fn spin_loop_model() {}
 #[kani::proof]
 #[kani::unwind(6)]
+#[kani::stub(core::hint::spin_loop, spin_loop_model)]
 fn l0_spin_wait() {
     let n: usize = kani::any();
     kani::assume(n <= 4);
